@@ -114,6 +114,18 @@ def pyval(x):
     raise TypeError(type(x))
 
 
+def infers_dtype(defn, name, raw):
+    """No dtype is requested for this column (numpy infers one): a derived numeric column with calibrators. Decided from
+    the definition's public attributes, not by asking the module's private helper."""
+    from space_packet_parser.xtce import parameter_types, encodings
+    pt = defn.parameters[name].parameter_type
+    enc = pt.encoding
+    if raw or isinstance(pt, parameter_types.EnumeratedParameterType):
+        return False
+    return isinstance(enc, encodings.NumericDataEncoding) and \
+        (enc.context_calibrators is not None or enc.default_calibrator is not None)
+
+
 def impl(line):
     from space_packet_parser import xarr
     t = parse_sx(line)
@@ -157,7 +169,7 @@ def impl(line):
         out += f" A {apid} {d.sizes.get('packet', 0)}"
         for name in d.data_vars:
             arr = d[name].values
-            if xarr._get_minimum_numpy_datatype(name, defn, use_raw_value=raw) is None:
+            if infers_dtype(defn, name, raw):
                 # no dtype requested: numpy infers a numeric one; compare the cells numerically
                 out += f" V {xser.S(name)} infer" + "".join(" " + V(float(pyval(x))) for x in arr)
             else:
